@@ -33,6 +33,7 @@ EXPECTED_PROBES = ['must_ready', 'must_reject', 'must_protocol_error',
                    'folded_header', 'block_exactly_16384', 'block_16385',
                    'reconnect_chain', 'prev_key_accept', 'case_variant_accept',
                    'frames_in_reply_read', 'protocol_negotiated',
+                   'ext_spoiled', 'dup_spoiled',
                    'extension_negotiated']
 ASSUMPTIONS = ['IPv6 literal hosts, duplicated Upgrade/Accept headers and '
                'status tokens such as +101 are not generated']
@@ -106,6 +107,25 @@ def _attempt(rng, first, size_edge=False):
     a['frames_same_read'] = rng.random() < 0.5
     a['proto'] = rng.random() < 0.3
     a['ext'] = rng.random() < 0.5
+    r2 = rng.random()
+    if r2 < 0.08:
+        # an extension answer no client may accept (RFC 7692 7.1: the client
+        # MUST fail the connection): window sizes out of range / not numbers,
+        # or an extension that was never offered
+        a['ext_bad'] = rng.choice([
+            'permessage-deflate; client_max_window_bits=16',
+            'permessage-deflate; server_max_window_bits=7',
+            'permessage-deflate; client_max_window_bits=abc',
+            'permessage-deflate; server_max_window_bits=0',
+            'permessage-deflate; server_max_window_bits="16"',
+            'permessage-deflate; client_no_context_takeover; '
+            'client_max_window_bits=-9'])
+    elif r2 < 0.2:
+        # a header of the verdict given twice, in different letter case: the
+        # two lines are one field (RFC 7230 3.2.2), whatever their spelling
+        a['dup'] = rng.choice(['upgrade_bad_first', 'upgrade_bad_last',
+                               'accept_bad_first', 'accept_bad_last',
+                               'proto_two'])
     a.update(ST.seg_fields(rng))
     a['gaps'] = [rng.choice([0, 0, 1000]) for _ in range(3)]
     return a
@@ -140,14 +160,14 @@ def make_case(family, i, rng, tier):
     return case
 
 
-def _verdict(a, block_len):
+def _verdict(a, block_len, spoiled=False):
     """-> 'ready' | 'protocol_error' | 'rejected' | 'none'"""
     if block_len > 16384:
         return 'protocol_error'
     if a.get('terminated', True) is False:
         return 'none'
     if a['status'] == 101 and a.get('upgrade') == 'websocket' and \
-            a['accept'] == 'ok':
+            a['accept'] == 'ok' and not spoiled:
         return 'ready'
     return 'rejected'
 
@@ -191,8 +211,40 @@ def _reply(a, case):
     if a.get('proto') and case.get('protocols'):
         proto = case['protocols'][0]
         hdrs.append(line('Sec-WebSocket-Protocol', proto))
+    pinned = []
+    dup = a.get('dup')
+    if dup and dup.startswith('upgrade') and up == 'websocket':
+        # 'websocket' and 'h2c' under names that differ in case only: the
+        # field value is 'h2c, websocket' (or the reverse), not 'websocket'
+        hdrs = [h for h in hdrs if not h.lower().startswith('upgrade')]
+        if dup.endswith('first'):
+            pair = [('upgrade', 'h2c'), ('Upgrade', 'websocket')]
+        else:
+            pair = [('Upgrade', 'websocket'), ('uPGRADE', 'h2c')]
+        pinned = ['%s: %s' % p for p in pair]
+        stats['spoiled'] = True
+    elif dup and dup.startswith('accept') and a['accept'] == 'ok':
+        hdrs = [h for h in hdrs if not h.lower().startswith('sec-websocket-a')]
+        good = 'Sec-WebSocket-Accept: @@ACCEPT@@'
+        bad = 'sec-websocket-accept: AAAAAAAAAAAAAAAAAAAAAAAAAAA='
+        pinned = [bad, good] if dup.endswith('first') else [good, bad]
+        stats['spoiled'] = True
+    elif dup == 'proto_two' and proto and len(case['protocols']) > 1:
+        hdrs = [h for h in hdrs if not h.lower().startswith('sec-websocket-p')]
+        pinned = ['Sec-WebSocket-Protocol: %s' % case['protocols'][0],
+                  'SEC-WEBSOCKET-PROTOCOL: %s' % case['protocols'][1]]
+        # (an answer no server should give; what Ready must then report is
+        # not laid down - only that neither name is silently lost)
+        proto = [case['protocols'][0], case['protocols'][1]]
     ext = False
-    if a.get('ext') and case.get('compress'):
+    if a.get('ext_bad') and case.get('compress'):
+        hdrs.append(line('Sec-WebSocket-Extensions', a['ext_bad']))
+        stats['spoiled'] = True
+    elif a.get('ext_bad'):
+        # nothing was offered: any extension in the answer is unsolicited
+        hdrs.append(line('Sec-WebSocket-Extensions', 'permessage-deflate'))
+        stats['spoiled'] = True
+    elif a.get('ext') and case.get('compress'):
         ext = True
         # parameters in every legal spelling (token or quoted-string values,
         # blanks around '=' and ';')
@@ -212,6 +264,11 @@ def _reply(a, case):
                          rng.choice(['x', 'a, b', 'Tue, 01 Jan 2030', '',
                                      '0'])))
     rng.shuffle(hdrs)
+    if pinned:
+        # the two lines keep their order; other headers go around them
+        k = rng.randrange(len(hdrs) + 1)
+        k2 = rng.randrange(k, len(hdrs) + 1)
+        hdrs = hdrs[:k] + [pinned[0]] + hdrs[k:k2] + [pinned[1]] + hdrs[k2:]
     text = status_line + '\r\n' + '\r\n'.join(hdrs) + '\r\n'
     data = text.encode('latin-1')
     terminated = a.get('terminated', True)
@@ -238,7 +295,7 @@ def build(case):
     for a in case['attempts']:
         data, block_len, proto, ext, stats = _reply(a, case)
         frames = peer.enc_frame(1, MARK) + peer.enc_frame(2, MARK)
-        verdict = _verdict(a, block_len)
+        verdict = _verdict(a, block_len, stats.get('spoiled'))
         total = block_len + len(frames)
         enc = ST.Encoded()
         cuts = ST.choose_cuts(a, enc, block_len, total)
@@ -253,6 +310,7 @@ def build(case):
                                  S.eof(after=500000)]})
         info.append({'verdict': verdict, 'block_len': block_len,
                      'proto': proto, 'ext': ext, 'folded': stats.get('folded'),
+                     'spoiled': stats.get('spoiled'),
                      'same_read': not any(c == block_len for c in cuts)})
     ws = {'protocols': case.get('protocols') or None,
           'headers': case.get('headers') or [],
@@ -392,10 +450,15 @@ def execute(case):
             good = peer.accept_for(key)
             if accept_variant(good, a['accept']) == good:
                 a = dict(a, accept='ok')
-                v = _verdict(a, inf['block_len'])
+                v = _verdict(a, inf['block_len'], inf.get('spoiled'))
         verdicts.append(v)
         tag = v
-        if a['accept'] in ('swapcase', 'lower', 'upper'):
+        if inf.get('spoiled'):
+            tag = 'ext_' + ('unsolicited' if not case.get('compress') else
+                            'bad_parameter') if a.get('ext_bad') else \
+                'dup_' + a['dup']
+            res.stats['probe:' + tag.split('_')[0] + '_spoiled'] += 1
+        elif a['accept'] in ('swapcase', 'lower', 'upper'):
             tag = 'case_variant'
             res.stats['probe:case_variant_accept'] += 1
         elif a['accept'] != 'ok':
@@ -421,7 +484,12 @@ def execute(case):
                         'events %s' % (k, inf['block_len'], names))
             else:
                 rd = [e for e in evs if e.name == 'ready'][0]
-                if rd.snap[1] != inf['proto']:
+                if isinstance(inf['proto'], list):
+                    if not all(p in (rd.snap[1] or '') for p in inf['proto']):
+                        res.bad('C10/ready/protocol_line_lost',
+                                'Ready.protocol=%r, the reply carried two '
+                                'protocol lines %r' % (rd.snap[1], inf['proto']))
+                elif rd.snap[1] != inf['proto']:
                     res.bad('C10/ready/protocol', 'Ready.protocol=%r reply '
                             'carried %r' % (rd.snap[1], inf['proto']))
                 elif inf['proto']:
